@@ -2,9 +2,9 @@ package main
 
 import (
 	"fmt"
-	"os"
 	"go/token"
 	"go/types"
+	"os"
 	"sort"
 	"strings"
 
@@ -82,6 +82,10 @@ func (e *bndEngine) genPrePost(fn *ssa.Function) {
 		for _, p := range ints {
 			add(&pre, candLeq(candPre, linConst(0), linAtom(p), names[p]+" ≥ 0"))
 			add(&pre, candLeq(candPre, linConst(1), linAtom(p), names[p]+" ≥ 1"))
+			if e.checkWrap {
+				add(&pre, candLeq(candPre, linAtom(p), linConst(magBound), names[p]+" ≤ 2^41"))
+				add(&pre, candLeq(candPre, linConst(-magBound), linAtom(p), names[p]+" ≥ −2^41"))
+			}
 			for _, q := range ints {
 				if p != q {
 					add(&pre, candLeq(candPre, linAtom(p), linAtom(q), names[p]+" ≤ "+names[q]))
@@ -136,6 +140,10 @@ func (e *bndEngine) genPrePost(fn *ssa.Function) {
 		r := fmt.Sprintf("R%d", j)
 		rn := fmt.Sprintf("result%d", j)
 		add(&post, candLeq(candPost, linConst(0), linAtom(r), rn+" ≥ 0"))
+		if e.checkWrap {
+			add(&post, candLeq(candPost, linAtom(r), linConst(magBound), rn+" ≤ 2^41"))
+			add(&post, candLeq(candPost, linConst(-magBound), linAtom(r), rn+" ≥ −2^41"))
+		}
 		for _, p := range ints {
 			add(&post, candLeq(candPost, linAtom(p), linAtom(r), rn+" ≥ "+names[p]))
 			add(&post, candLeq(candPost, linAtom(r), linAtom(p), rn+" ≤ "+names[p]))
@@ -241,6 +249,9 @@ func (e *bndEngine) genInv(ts *trackedStruct) {
 	}
 	for _, a := range ints {
 		add(candLeq(candInv, linConst(0), linAtom(a), nm(a)+" ≥ 0"))
+		if e.checkWrap {
+			add(candLeq(candInv, linAtom(a), linConst(magBound), nm(a)+" ≤ 2^41"))
+		}
 		for _, k := range e.fieldConsts(ts, a) {
 			add(candLeq(candInv, linAtom(a), linConst(k), fmt.Sprintf("%s ≤ %d", nm(a), k)))
 		}
@@ -399,6 +410,37 @@ func (c *fnCtx) genBlockCands() {
 			}
 			pid := c.id(phi)
 			add(candLeq(candBlock, linConst(0), pa, pid+" ≥ 0"))
+			if c.e.checkWrap {
+				add(candLeq(candBlock, pa, linConst(magBound), pid+" ≤ 2^41"))
+				add(candLeq(candBlock, linConst(-magBound), pa, pid+" ≥ −2^41"))
+			}
+			// counters that advance no faster than another counter: φ ≤ ψ + k for a phi ψ
+			// of this block or of a dominating one (line ≤ i + 1)
+			if c.e.checkWrap {
+				for _, ob := range c.fn.Blocks {
+					if ob != b && !ob.Dominates(b) {
+						continue
+					}
+					for _, oin := range ob.Instrs {
+						ophi, ok := oin.(*ssa.Phi)
+						if !ok {
+							break
+						}
+						if ophi == phi || !isIntType(ophi.Type()) {
+							continue
+						}
+						oa := c.lin(ophi)
+						if len(oa.C) != 1 {
+							continue
+						}
+						for _, j := range []int64{0, 1, 2} {
+							if oj, ok := oa.add(linConst(j)); ok {
+								add(candLeq(candBlock, pa, oj, pid+" ≤ "+oj.String()))
+							}
+						}
+					}
+				}
+			}
 			// entry-edge values
 			for k, pb := range b.Preds {
 				if b.Dominates(pb) {
@@ -601,6 +643,21 @@ func (c *fnCtx) obligations() []bndObligation {
 				o := mk(in, "shift", render(x))
 				q, ok := leq(linConst(0), s, "shift count ≥ 0")
 				goal(o, q, ok, "shift count ≥ 0")
+			case token.ADD, token.SUB, token.MUL:
+				// no-wrap: the mathematical result of an offset/size computation fits the machine int
+				// (everything above treats + − × as mathematical)
+				if !c.e.checkWrap || c.intSize() != 64 || !isIntType(x.Type()) || isUnsigned(x.Type()) || typeBits(x.Type()) != 64 {
+					return
+				}
+				l := c.lin(x)
+				if l.isConst() || len(l.C) == 1 && l.C[c.id(x)] == 1 && l.K == 0 {
+					return // constant, or not linearisable (opaque product): nothing to state
+				}
+				o := mk(in, "no-wrap", render(x))
+				q1, ok1 := leq(l, linConst(wrapBound), "result ≤ 2^60")
+				goal(o, q1, ok1, "result ≤ 2^60")
+				q2, ok2 := leq(linConst(-wrapBound), l, "result ≥ −2^60")
+				goal(o, q2, ok2, "result ≥ −2^60")
 			}
 		case *ssa.MakeSlice:
 			for _, sz := range []ssa.Value{x.Len, x.Cap} {
